@@ -46,16 +46,28 @@ func ZZ_C07_switchPoint() {
 		zz.Assert("misaligned_transition_registers_nothing", len(c.callbacks) == 0)
 		return
 	}
+	// the DKG may complete late: rounds up to `pre` are already stored when the transition is registered
+	// (pre = tRound-1 means the last pre-transition round is already in the store)
+	pre := tRound - 3 + uint64(zz.Choose("stored_before_registration", 3))
+	for r := uint64(1); r <= pre; r++ {
+		_ = cbs.Put(context.Background(), &common.Beacon{Round: r, Signature: []byte{byte(r)}})
+	}
+	zz.Quiesce()
 	h.TransitionNewGroup(context.Background(), newEp.Share(nw.sch, 0), newGroup)
 	switched := 0
-	for r := uint64(1); r <= tRound+1; r++ {
+	for r := pre + 1; r <= tRound+1; r++ {
 		wasOld := h.crypto.GetGroup() == nw.group
 		_ = cbs.Put(context.Background(), &common.Beacon{Round: r, Signature: []byte{byte(r)}})
 		zz.Quiesce()
 		isNew := h.crypto.GetGroup() == newGroup
 		if wasOld && isNew {
 			switched++
-			zz.Assert("switch_happens_at_last_pre_transition_round", r == tRound-1)
+			// the first round stored after registration that is >= tRound-1
+			first := tRound - 1
+			if pre+1 > first {
+				first = pre + 1
+			}
+			zz.Assert("switch_happens_at_last_pre_transition_round", r == first)
 		}
 		if r < tRound-1 {
 			zz.Assert("old_group_before_transition", !isNew)
